@@ -13,4 +13,5 @@ CONSTANTS
   Consecutive = FALSE
   MinFinish = 0
 INVARIANTS FinishedWellFormed SortedNeverPanics FinishedAscending
+PROPERTY AppendOnly
 CHECK_DEADLOCK FALSE
